@@ -271,7 +271,7 @@ def c16_sweep_engine(prop, tier, seed, work, known):
 def match_known(known, fam, case, obs, pred):
     for k in known:
         m = k.get("match", {})
-        if m.get("family") and m["family"] != fam:
+        if m.get("family") and fam not in str(m["family"]).split("|"):      # "famA|famB": the class may show in either family
             continue
         pred_fn = KNOWN_PREDICATES.get(m.get("predicate"))
         if pred_fn and pred_fn(m, case, obs, pred):
